@@ -93,6 +93,11 @@ func (s *Server) Start() error {
 	serverOpts = append(serverOpts,
 		grpc.KeepaliveParams(kaProps),
 		grpc.KeepaliveEnforcementPolicy(kaPolicy),
+		// The service admits values of up to 10 MB and the client package sends and
+		// accepts messages of up to 16 MB; with gRPC's default of 4 MB every larger
+		// request was refused by the transport before it reached the service
+		grpc.MaxRecvMsgSize(16*1024*1024),
+		grpc.MaxSendMsgSize(16*1024*1024),
 	)
 
 	// Create gRPC server with options
